@@ -46,7 +46,7 @@ Requirements for each change <n> = 1, 2, 3:
    monkeypatched locks) rather than relying on luck.
 3. Save the change as a unified diff of src/ only: \`git -C $D diff -- src > $D/patch_<n>.diff\`, then restore
    the tree (\`git -C $D checkout -- src\`) before the next change.
-4. Never commit and NEVER use `git stash` (the stash is shared between all worktrees of this repository and other people work in sibling worktrees); to test "without the change" use `git diff > file` + `git checkout -- src` + `git apply file`. At the end leave patch_<n>.diff and demo_<n>.py in $D with the source tree restored to HEAD.
+4. Never commit and NEVER use git stash (the stash is shared between all worktrees of this repository and other people work in sibling worktrees); to test without the change, save it with git diff into a file, restore with git checkout -- src, and re-apply it with git apply. At the end leave patch_<n>.diff and demo_<n>.py in $D with the source tree restored to HEAD.
 
 Report back, per patch: file/function changed, which clause of the property it breaks, what it needs in order
 to manifest, and the commands you ran to confirm (suite passes with change; demo fails with / passes without).
